@@ -23,13 +23,18 @@ READY = True
 DESIGN_REF = '6/C10'
 TECHNIQUE = 'Lean 4 proof over a hand-written model + bit-exact correspondence check of whole traces'
 LEVEL_TEXT = ("Lean 4 theorems over every linearly ordered field, every configuration (dt, tf, pfreq, sorted requested times, "
-              "n_damp, max_steps) and every positive adaptive sequence (step_dt_pos, time_strictly_increases, step_le_current_dt, "
-              "lands_on_tf, never_past_requested_time, dump_at_start_and_end, dump_every_pfreq, dump_at_requested_time, "
-              "recorded_dt_is_nominal, callbacks_once_per_step, count_le_max_steps) about a hand-written model that transcribes "
-              "the solver loop; the model is tied to the code on every run by bit-exact comparison of whole event traces at Float "
-              "against the scratch build, and the property's own predicate is evaluated on every implementation trace to produce replays.")
+              "n_damp, max_steps) and every positive adaptive sequence (step_dt_pos, time_strictly_increases, time_advances_by_dt, "
+              "step_le_current_dt, nom_is_current_step_size, lands_on_tf, lands_on_tf_exact, count_le_max_steps, "
+              "never_past_requested_time, dump_at_start_and_end, dump_every_pfreq, dump_at_requested_time, recorded_dt_is_nominal, "
+              "nominal_undamped, recorded_dt_fixed_mode, recorded_dt_adaptive_mode, callbacks_once_per_step, terminates) about a "
+              "hand-written model that transcribes the (repaired) solver loop, plus three counterexample theorems showing that the "
+              "pinned loop breaks the property in exact arithmetic; the model is tied to the code on every run by bit-exact comparison "
+              "of whole event traces at Float against the scratch build, and the property's own predicate is evaluated on every "
+              "implementation trace to produce replays.")
 LEVEL_NOTE = ("Trusted: Lean kernel, axioms propext/Classical.choice/Quot.sound; the hand-written model (checked by the "
-              "correspondence, 1500+ schedules quick); exact-field arithmetic in place of IEEE doubles (rounding of t + dt is "
-              "sampled by the harness oracle, not proved); damping sine and adaptive sequence are positive oracles; serial path only. "
-              "Not proved: termination before max_steps under a lower bound on the adaptive step (the model is total because of max_steps).")
+              "correspondence, 1500+ schedules / 140k events quick, 100k schedules thorough); exact-field arithmetic in place of IEEE "
+              "doubles (rounding of t + dt is sampled by the harness oracle on every trace, not proved); damping sine and adaptive "
+              "sequence are positive oracles (terminates / recorded_dt_*_mode additionally need lower bounds and a non-decreasing "
+              "damping ramp); serial path only. dump_at_requested_time keeps one measure-zero corner (a step starting at exactly "
+              "T - eps) as an explicit disjunct.")
 TIMEOUT = {'quick': 900, 'thorough': 3600}
